@@ -721,6 +721,133 @@ def run_A(chunk, R):
         R.extend(vs)
 
 
+# --------------------------------------------------------------- part H --
+# Groups far too large to enumerate (only the arithmetic groups can be created
+# lazily: blocks, mappings with few elements and a huge range, binary mappings
+# with a huge domain).  Every identifier within 3 of a boundary is converted
+# to its index and back: the ends of the group, powers of two and multiples of
+# 2^53 (where floating point stops being exact), in both signs.
+HUGE_SHAPES = [('block', [2 ** 62]), ('block', [2 ** 40, 2 ** 22]), ('block', [3, 2 ** 55, 5]),
+               ('block', [2 ** 20, 2 ** 20, 2 ** 20]),
+               ('mapping', [2 ** 10, 2 ** 50]), ('mapping', [3, 2 ** 60]), ('mapping', [4097, 2 ** 44 + 1]),
+               ('binary_mapping', [2 ** 60, 5]), ('binary_mapping', [2 ** 58, 37]),
+               ('binary_mapping', [2 ** 61 + 1, 2]), ('binary_mapping', [3 ** 37, 3]),
+               ('binary_mapping', [2 ** 53 + 1, 2 ** 9 + 1])]
+
+
+def huge_index(kind, shape, o):
+    """the index of the o-th (from 0) variable of the group, by arithmetic"""
+    if kind == 'block':
+        idx = []
+        for r in reversed(shape):
+            idx.append(o % r + 1)
+            o //= r
+        return tuple(reversed(idx))
+    if kind == 'mapping':
+        return (o // shape[1] + 1, o % shape[1] + 1)
+    k = ref.bits_for(shape[1])
+    return (o // k + 1, k - 1 - o % k)
+
+
+def huge_size(kind, shape):
+    if kind == 'block':
+        n = 1
+        for r in shape:
+            n *= r
+        return n
+    if kind == 'mapping':
+        return shape[0] * shape[1]
+    return shape[0] * ref.bits_for(shape[1])
+
+
+def huge_offsets(N, first):
+    pts = {0, N - 1}
+    for e in range(50, 64):
+        pts.add(2 ** e)
+        pts.add(2 ** e - first)
+    for m in (3, 5, 7, 129):
+        pts.add(m * 2 ** 53)
+        pts.add(m * 2 ** 53 - first)
+    pts.add(N // 2)
+    pts.add(N // 3)
+    out = set()
+    for p_ in pts:
+        for d in range(-3, 4):
+            if 0 <= p_ + d < N:
+                out.add(p_ + d)
+    return sorted(out)
+
+
+def cases_H(tier, seed):
+    return [{'part': 'H', 'kind': k, 'shape': sh, 'cls': cls, 'pre': pre}
+            for (k, sh) in HUGE_SHAPES for cls in ('CNF', 'OPB') for pre in (0, 7, 2 ** 53 - 2)]
+
+
+def check_H(case, stats=None):
+    kind, shape, cls, pre = case['kind'], case['shape'], case['cls'], case['pre']
+    V = Viol(dict(case))
+    F = formula_class(cls)()
+    if pre:
+        F.update_variable_number(pre)
+    try:
+        g = create(F, kind, shape, None)
+    except Exception as e:
+        V.bad('%s:huge:create:exception:%s' % (kind, type(e).__name__), repr(e))
+        return V.out
+    N = huge_size(kind, shape)
+    first = pre + 1
+    if F.number_of_variables() != pre + N:
+        V.bad('%s:huge:count' % kind, 'the formula declares %d variables, expected %d + %d'
+              % (F.number_of_variables(), pre, N))
+        return V.out
+    for o in huge_offsets(N, first):
+        vid = first + o
+        idx = huge_index(kind, shape, o)
+        try:
+            v = g(*idx)
+        except Exception as e:
+            V.bad('%s:huge:index-to-id:exception:%s' % (kind, type(e).__name__), 'g%r: %r' % (idx, e))
+            continue
+        if v != vid:
+            V.bad('%s:huge:index-to-id' % kind, 'g%r = %r, expected %d' % (idx, v, vid))
+        for lit in (vid, -vid):
+            try:
+                back = tuple(g.to_index(lit))
+            except Exception as e:
+                V.bad('%s:huge:to_index:exception:%s' % (kind, type(e).__name__), 'to_index(%d): %r' % (lit, e))
+                continue
+            if back != idx:
+                V.bad('%s:huge:roundtrip' % kind, 'to_index(%d) = %r but the variable has index %r' % (lit, back, idx))
+            if stats is not None:
+                stats['roundtrips'] += 1
+        try:
+            if vid not in g:
+                V.bad('%s:huge:contains' % kind, '%d in group is False' % vid)
+        except Exception as e:
+            V.bad('%s:huge:contains:exception:%s' % (kind, type(e).__name__), repr(e))
+    for lit in (first - 1, first + N, -(first + N), 0):
+        try:
+            r = g.to_index(lit)
+            V.bad('%s:huge:accepts-foreign-id' % kind, 'to_index(%d) = %r for a group owning %d..%d'
+                  % (lit, r, first, first + N - 1))
+        except ValueError:
+            if stats is not None:
+                stats['rejected_ids'] += 1
+        except Exception as e:
+            V.bad('%s:huge:reject-id:exception:%s' % (kind, type(e).__name__), 'to_index(%d): %r' % (lit, e))
+    return V.out
+
+
+def run_H(chunk, R):
+    for case in chunk:
+        vs = check_H(case, R.stats)
+        R.case(sample=case if R.evals % 7 == 0 else None, nontrivial=True)
+        R.outcomes['kind:' + case['kind']] += 1
+        R.outcomes['context:huge'] += 1
+        R.stats['executions'] += 1
+        R.extend(vs)
+
+
 # --------------------------------------------------------------- part B --
 PATH3 = [3, [[1, 2], [2, 3]]]
 SPARSE = [2, 3, [[1, 2], [2, 1], [2, 3]]]
@@ -944,6 +1071,7 @@ def shards(tier, seed):
     cs = cases_A(tier, seed)
     kA = 24
     out += [('A%03d' % i, 'run_A', chunk) for i, chunk in enumerate(scope.stripe(cs, kA))]
+    out.append(('H', 'run_H', cases_H(tier, seed)))
     return out
 
 
@@ -961,6 +1089,8 @@ def replay(case):
     if case.get('part') == 'A':
         vs, _ = check_A(case, None)
         return vs
+    if case.get('part') == 'H':
+        return check_H(case, None)
     hist = case['history']
     opsd = dict(alphabet('quick'))
     M, canon, labels = model_of(hist, opsd)
